@@ -273,6 +273,10 @@ func c02Build(c c02Case, viol func(key, what string, obs any)) (m *mail.Msg, exp
 	if _, ok := v("PartDescription"); ok && nParts > 1 {
 		add(c02Expect{setter: "PartDescription", section: "part0", field: "Content-Description", want: c.Values["PartDescription"], kind: "text"})
 	}
+	if _, ok := v("PartDescription"); ok && c.Shape == "single" {
+		// a message that consists of this one part carries the part's description in the message header
+		add(c02Expect{setter: "PartDescription", section: "top", field: "Content-Description", want: c.Values["PartDescription"], kind: "text"})
+	}
 	fileOpts := func() []mail.FileOption {
 		var fo []mail.FileOption
 		if x, ok := v("WithFileName"); ok {
@@ -442,7 +446,8 @@ func runC02Case(r *ev.Run, c c02Case) {
 			n := strings.ToLower(f.Name)
 			seen[n]++
 			if e == root {
-				if !topSingletons[n] {
+				_, partDesc := c.Values["PartDescription"]
+				if !topSingletons[n] && !(n == "content-description" && c.Shape == "single" && partDesc) {
 					viol("extra-field:top:"+blame(f.Name+f.Value), fmt.Sprintf("unexpected top-level field %q", f.Name), f.RawLines)
 				}
 			} else if !partAllowed[n] {
